@@ -34,20 +34,25 @@ def parse_request(message):
                 target = local(sub[0].tag) if local(sub[0].tag) != 'url' else (sub[0].text or '')
     return mid, local(op.tag), target
 
-def make_session(device_handler, server, caps=None):
+def session_class(server, caps=None):
+    """A Session subclass constructed like the real transports: cls(device_handler)."""
     from ncclient.transport.session import Session
     from ncclient.transport.errors import TransportError
     from ncclient.capabilities import Capabilities
 
     class FakeRPCSession(Session):
-        def __init__(self):
+        transport = None                      # connect_ssh looks at session.transport on failure
+        def __init__(self, device_handler):
             Session.__init__(self, Capabilities(device_handler.get_capabilities()))
             self._device_handler = device_handler
             self._server_capabilities = Capabilities(caps if caps is not None else DEFAULT_CAPS)
-            self._connected = True
             self._id = '4711'
             self.sent = []
-        def run(self):          # never started
+            self.connect_args = None
+            self._connected = True
+        def connect(self, *args, **kwds):     # the transports' connect(): nothing to do
+            self.connect_args = (args, kwds)
+        def run(self):                        # never started
             pass
         def send(self, message):
             if not self.connected:
@@ -55,7 +60,26 @@ def make_session(device_handler, server, caps=None):
             self.sent.append(message)
             for reply in server(message):
                 self._dispatch_message(reply)
-    return FakeRPCSession()
+    return FakeRPCSession
+
+def make_session(device_handler, server, caps=None):
+    return session_class(server, caps)(device_handler)
+
+class patched_transports:
+    """Rebind ncclient.transport.{SSHSession,TLSSession,UnixSocketSession} (the names manager.connect_*
+    look up at call time) to the fake session class, so that the real connect_* functions run."""
+    NAMES = ('SSHSession', 'TLSSession', 'UnixSocketSession')
+    def __init__(self, server, caps=None):
+        self.cls = session_class(server, caps)
+    def __enter__(self):
+        import ncclient.transport as T
+        self.saved = {n: getattr(T, n) for n in self.NAMES}
+        for n in self.NAMES: setattr(T, n, self.cls)
+        return self
+    def __exit__(self, *a):
+        import ncclient.transport as T
+        for n, v in self.saved.items(): setattr(T, n, v)
+        return False
 
 def reply_doc(message_id, body, prefix=None, extra_attrs=''):
     """An <rpc-reply> in the base namespace (default namespace, or the given prefix)."""
